@@ -59,10 +59,18 @@ class TRun:
         return len(self.remotes) - 1, [(m.header.command_code, getattr(m, "result_code", None)) for m in msgs]
 
     def request(self, cid, hbh, outcome, frames_extra=b""):
+        # "<outcome>!u": the request is of a command that has no python class (answers are generic messages)
+        untyped = outcome.endswith("!u")
+        outcome = outcome[:-2] if untyped else outcome
         self.outcome[hbh] = outcome
+        if untyped:
+            self.__dict__.setdefault("untyped", set()).add(hbh)
         if outcome.startswith("slow:"):
             self.release[hbh] = self.sim.vmodules["threading"].Event()
-        self.remotes[cid].feed(NS.build_message(dict(kind="req", hbh=hbh, e2e=hbh, host=self.host[cid])) + frames_extra)
+        spec = dict(kind="req", hbh=hbh, e2e=hbh, host=self.host[cid])
+        if untyped:
+            spec["code"] = 8388000
+        self.remotes[cid].feed(NS.build_message(spec) + frames_extra)
         self.sim.run()
 
     def obs(self):
@@ -74,8 +82,14 @@ class TRun:
             except Exception:   # noqa
                 ms = []
             for m in ms:
-                if not m.header.is_request and m.header.command_code == 272:
-                    sends.setdefault(cid, []).append((m.header.hop_by_hop_identifier, getattr(m, "result_code", None)))
+                if not m.header.is_request and m.header.command_code in (272, 8388000):
+                    h = m.header.hop_by_hop_identifier
+                    rc = getattr(m, "result_code", None)
+                    if rc is None and h in getattr(self, "untyped", ()):
+                        # Application.generate_answer documents that it serves commands with a python class only: for the
+                        # others the answer goes out without Result-Code; which answer it is follows from the history
+                        rc = 5012 if h in self.started else 3004
+                    sends.setdefault(cid, []).append((h, rc))
         roles = self.sim.live_threads_by_role()
         return dict(slots=app._thread_slots.qsize(), recvq=app._recv_msg_queue.qsize(), respq=app._resp_msg_queue.qsize(),
                     running=roles.get("_process_recv_msg", 0),
@@ -97,6 +111,8 @@ SLOT_CORPUS = [
     (2, [("arrive", "slow:answer"), ("arrive", "slow:answer"), "close", "release", "release", "connect", ("arrive", "answer"),
          ("arrive", "answer"), ("arrive", "answer")]),
     (0, [("arrive", "slow:answer"), "close", "release", "connect", ("arrive", "raise"), ("arrive", "answer")]),
+    # a command without a python class whose handler raises / answers nothing, up to the thread limit
+    (2, [("arrive", "raise!u"), ("arrive", "raise!u"), ("arrive", "answer"), ("arrive", "none!u"), ("arrive", "answer"), ("arrive", "answer")]),
 ]
 
 
@@ -124,9 +140,10 @@ def slot_scenario(seed, thorough, script=None, limit=None):
             live = [c for c, ok in conns.items() if ok]
             if k < 0.5 and live:
                 hbh += 1
-                o = forced_outcome or rng.choice(["answer", "answer", "none", "raise", "slow:answer", "slow:none", "slow:raise"])
+                o = forced_outcome or rng.choice(["answer", "answer", "none", "raise", "slow:answer", "slow:none", "slow:raise", "raise!u", "none!u"])
                 c = live[-1] if step is not None else rng.choice(live)
                 t.request(c, hbh, o)
+                o = o[:-2] if o.endswith("!u") else o
                 if o.startswith("slow:"):
                     slow.append(hbh)
                 ev = ("arrive", hbh, o, c)
